@@ -189,14 +189,39 @@ func allConc(args []value) bool {
 	return true
 }
 
-// sprintfModel formats with a concrete format string; string arguments may have symbolic bytes
-// (spliced as they are for %s and %v; %q adds plain quotes without escaping — an approximation that
-// only matters for message texts, which no check inspects). A symbolic format string is returned
-// unformatted (approximation, same remark). Symbolic integers render as "?".
+// sprintfModel: string arguments may have symbolic bytes (spliced as they are for %s and %v; %q adds
+// plain quotes without escaping — an approximation that only matters for message texts, which no check
+// inspects). A format string with symbolic bytes is handled byte-wise: for every symbolic byte the path
+// forks on whether it is '%' (afterwards every '%' of the format is concrete and the remaining symbolic
+// bytes are known to be literal text); the flag / verb bytes that follow a '%' are concretised.
+// Symbolic integers render as "?".
 func sprintfModel(e *Engine, args []value) value {
-	format, ok := args[0].(string)
-	if !ok {
+	var fb []value
+	switch f := args[0].(type) {
+	case string:
+		fb = strBytes(f)
+	case *symstr:
+		fb = append([]value{}, f.b...)
+		for i, b := range fb {
+			if sv, isSym := b.(*symv); isSym {
+				if e.truth(&symv{tEq(sv.t, bvLit('%', 8))}) {
+					fb[i] = uint64('%')
+				}
+			}
+		}
+	default:
 		return args[0]
+	}
+	concAt := func(i int) byte {
+		switch b := fb[i].(type) {
+		case uint64:
+			return byte(b)
+		case *symv:
+			c := e.concretize(b.t)
+			fb[i] = c
+			return byte(c)
+		}
+		return '?'
 	}
 	var va []value
 	if len(args) > 1 && args[1] != nil {
@@ -205,6 +230,11 @@ func sprintfModel(e *Engine, args []value) value {
 	allConc := true
 	for _, a := range va {
 		if isSymbolic(a) {
+			allConc = false
+		}
+	}
+	for _, b := range fb {
+		if _, isSym := b.(*symv); isSym {
 			allConc = false
 		}
 	}
@@ -238,38 +268,55 @@ func sprintfModel(e *Engine, args []value) value {
 		}
 	}
 	if allConc {
+		bs := make([]byte, len(fb))
+		for i := range fb {
+			bs[i] = byte(fb[i].(uint64))
+		}
 		goArgs := make([]interface{}, len(va))
 		for i, a := range va {
 			goArgs[i] = toGo(a)
 		}
-		return fmt.Sprintf(format, goArgs...)
+		return fmt.Sprintf(string(bs), goArgs...)
 	}
+	isPct := func(i int) bool { c, ok := fb[i].(uint64); return ok && c == '%' }
 	var out []value
 	ai := 0
-	for i := 0; i < len(format); i++ {
-		c := format[i]
-		if c != '%' || i+1 >= len(format) {
-			out = append(out, uint64(c))
+	for i := 0; i < len(fb); i++ {
+		if !isPct(i) {
+			out = append(out, fb[i])
+			continue
+		}
+		if i+1 >= len(fb) {
+			out = append(out, strBytes("%!(NOVERB)")...)
 			continue
 		}
 		// collect the verb (flags/width are passed through to fmt for concrete arguments)
 		j := i + 1
-		for j < len(format) && (format[j] == '+' || format[j] == '-' || format[j] == '#' || format[j] == ' ' || format[j] == '0' || format[j] == '.' || (format[j] >= '1' && format[j] <= '9')) {
-			j++
-		}
-		if j >= len(format) {
-			out = append(out, strBytes(format[i:])...)
+		for j < len(fb) {
+			c := concAt(j)
+			if c == '+' || c == '-' || c == '#' || c == ' ' || c == '0' || c == '.' || (c >= '1' && c <= '9') {
+				j++
+				continue
+			}
 			break
 		}
-		verb := format[j]
-		spec := format[i : j+1]
+		if j >= len(fb) {
+			out = append(out, strBytes("%!(NOVERB)")...)
+			break
+		}
+		verb := concAt(j)
+		specB := make([]byte, 0, j+1-i)
+		for k := i; k <= j; k++ {
+			specB = append(specB, concAt(k))
+		}
+		spec := string(specB)
 		i = j
 		if verb == '%' {
 			out = append(out, uint64('%'))
 			continue
 		}
 		if ai >= len(va) {
-			out = append(out, strBytes("%!"+string(verb)+"(MISSING)")...)
+			out = append(out, strBytes(fmt.Sprintf(spec))...) // the library's own %!verb(MISSING) text
 			continue
 		}
 		a := va[ai]
@@ -285,6 +332,17 @@ func sprintfModel(e *Engine, args []value) value {
 			continue
 		}
 		out = append(out, strBytes(fmt.Sprintf(spec, toGo(a)))...)
+	}
+	if ai < len(va) {
+		// surplus arguments: %!(EXTRA type=value, ...) as the library prints it for concrete values
+		extra := "%!(EXTRA "
+		for k := ai; k < len(va); k++ {
+			if k > ai {
+				extra += ", "
+			}
+			extra += fmt.Sprintf("%T=%v", toGo(va[k]), toGo(va[k]))
+		}
+		out = append(out, strBytes(extra+")")...)
 	}
 	return mkStr(out)
 }
